@@ -348,9 +348,85 @@ func c26backlog(resp2 bool) func(x *vsched.Exec) {
 	}
 }
 
+
+// c26overlap: three Receives of the same kind on one connection with overlapping lifetimes. A (channel a) ends while
+// B (channel b) is still running; then C (channel c) starts; then b is unsubscribed. B must return nil, C must keep
+// receiving until its own channel is unsubscribed.
+func c26overlap(resp2 bool) func(x *vsched.Exec) {
+	return func(x *vsched.Exec) {
+		e := vwNew(func(o *ClientOption, srv *simredis.Server, n *simnet.Net) {
+			if resp2 {
+				o.AlwaysRESP2 = true
+				o.DisableCache = true
+			}
+		})
+		if e.err != nil {
+			x.Fail("client setup failed", "%v", e.err)
+			return
+		}
+		type rcv struct {
+			got  []string
+			err  error
+			done bool
+		}
+		rs := map[string]*rcv{"a": {}, "b": {}, "c": {}}
+		ctx := context.Background()
+		start := func(ch string) {
+			r := rs[ch]
+			vsched.GoNamed("recv-"+ch, func() {
+				r.err = e.client.Receive(ctx, e.client.B().Subscribe().Channel(ch).Build(), func(m PubSubMessage) {
+					r.got = append(r.got, m.Channel+":"+m.Message)
+				})
+				r.done = true
+			})
+		}
+		subscribed := func(ch string) bool {
+			for _, s := range e.srv.Sessions {
+				for _, sc := range s.Subs {
+					if sc == ch {
+						return true
+					}
+				}
+			}
+			return false
+		}
+		unsub := func(ch string) {
+			e.client.Do(ctx, e.client.B().Unsubscribe().Channel(ch).Build())
+		}
+		start("a")
+		start("b")
+		vsched.GoNamed("driver", func() {
+			vsched.Point("wait-ab", func() bool { return subscribed("a") && subscribed("b") })
+			unsub("a")
+			vsched.Point("wait-a-done", func() bool { return rs["a"].done })
+			start("c")
+			vsched.Point("wait-c", func() bool { return subscribed("c") })
+			e.srv.Publish("c", "c1", false)
+			e.srv.Publish("b", "b1", false)
+			unsub("b")
+			vsched.Point("wait-b-done", func() bool { return rs["b"].done })
+			e.srv.Publish("c", "c2", false)
+			unsub("c")
+		})
+		if x.Run() != vsched.Quiescent {
+			return // a Receive that never returns shows up as a deadlock
+		}
+		for _, ch := range []string{"a", "b", "c"} {
+			r := rs[ch]
+			if !r.done || r.err != nil {
+				x.Fail("Receive did not return nil on unsubscribe", "Receive(%s): done=%v err=%v", ch, r.done, r.err)
+			}
+		}
+		if strings.Join(rs["c"].got, " ") != "c:c1 c:c2" || strings.Join(rs["b"].got, " ") != "b:b1" || len(rs["a"].got) != 0 {
+			x.Fail("Receive did not deliver exactly the messages of its subscription in order", "a got %v (want none), b got %v (want b1), c got %v (want c1 c2)", rs["a"].got, rs["b"].got, rs["c"].got)
+		}
+		x.Outcome = fmt.Sprintf("a=%v b=%v c=%v", rs["a"].got, rs["b"].got, rs["c"].got)
+	}
+}
+
 func TestVerif_C26(t *testing.T) {
 	vrun.Main(t, "C26", func(r *vrun.Run) {
-		r.Rule = "1-2 Receive calls (channels, patterns, shard channels, overlapping) on a real client, an out-of-band publisher sending 3-4 messages on 2 channels once the subscriptions are confirmed, an ender (UNSUBSCRIBE through another call, server-initiated sunsubscribe, context cancel, Close, connection drop) and optionally a thread issuing tagged regular commands; RESP3 and RESP2; plus a slow consumer (callback blocked while 20 messages arrive: the 16-slot buffer fills and the reader waits) whose context is then cancelled, followed by a regular command; all schedules within the preemption/delay bound; oracle: callback log = server publish log filtered to the subscription up to its end, in order, no duplicates; return value per end kind"
+		r.Rule = "1-2 Receive calls (channels, patterns, shard channels, overlapping) on a real client, an out-of-band publisher sending 3-4 messages on 2 channels once the subscriptions are confirmed, an ender (UNSUBSCRIBE through another call, server-initiated sunsubscribe, context cancel, Close, connection drop) and optionally a thread issuing tagged regular commands; RESP3 and RESP2; plus three Receives with overlapping lifetimes (A ends while B runs, then C starts, then B's channel is unsubscribed); plus a slow consumer (callback blocked while 20 messages arrive: the 16-slot buffer fills and the reader waits) whose context is then cancelled, followed by a regular command; all schedules within the preemption/delay bound; oracle: callback log = server publish log filtered to the subscription up to its end, in order, no duplicates; return value per end kind"
 		pubs := []string{"ch1:m1", "ch2:x1", "ch1:m2", "ch1:m3"}
 		cfgs := []c26cfg{
 			{name: "sub/unsub", subs: []string{"sub:ch1"}, pubs: pubs, end: "unsub"},
@@ -369,6 +445,13 @@ func TestVerif_C26(t *testing.T) {
 		}
 		for ci, c := range cfgs {
 			vexp.Run(r, vexp.Prog{Name: c.name, Delay: 1, Budget: vsched.Budget{MaxPreempt: vrun.Pick(r, 1, 2)}, Opts: vsched.Options{Horizon: 20000}, Body: c26body(c), Seconds: r.Remaining() / float64(len(cfgs)-ci)})
+		}
+		for _, resp2 := range []bool{false, true} {
+			name := "overlap/subA,subB;unsubA;subC;unsubB;unsubC"
+			if resp2 {
+				name = "resp2/" + name
+			}
+			vexp.Run(r, vexp.Prog{Name: name, Delay: 1, Budget: vsched.Budget{MaxPreempt: 1}, Opts: vsched.Options{Horizon: 40000}, Body: c26overlap(resp2), Seconds: vrun.Pick(r, 10.0, 60.0)})
 		}
 		for _, resp2 := range []bool{false, true} {
 			name := "backlog/slow-consumer/cancel"
